@@ -18,9 +18,9 @@ def lst(s,sep):
 for l in open(sys.argv[1]):
     l=l.rstrip("\n")
     if not l: continue
-    pkg,recv,name,pn,pt,rt=l.split("\t")
+    pkg,recv,name,pn,pt,rt,sels=(l.split("\t")+[""])[:7]
     if "/e2etest" in pkg or "/api/" in pkg and name.startswith("DeepCopy"): continue
-    out.append("\t{Pkg: %s, Recv: %s, Name: %s, PNames: %s, PTypes: %s, RTypes: %s}," % (json.dumps(pkg),json.dumps(recv),json.dumps(name),lst(pn,","),lst(pt,";"),lst(rt,";")))
+    out.append("\t{Pkg: %s, Recv: %s, Name: %s, PNames: %s, PTypes: %s, RTypes: %s, Sels: %s}," % (json.dumps(pkg),json.dumps(recv),json.dumps(name),lst(pn,","),lst(pt,";"),lst(rt,";"),lst(sels,",")))
 out+=["}","","// pinnedFields: the fields of the named struct types of the confirmed tree (package, type, field, field type).",
 "var pinnedFields = []chk.PinnedField{"]
 for l in open(sys.argv[1]+".fields"):
